@@ -187,6 +187,15 @@ static void quiesce_and_print(void) {
     struct sigaction sa;
     sigaction(SIGS[j], NULL, &sa);
     printf(" %d=%s", SIGS[j], sa.sa_handler == SIG_DFL ? "dfl" : (sa.sa_flags & SA_RESETHAND) ? "uv/reset" : "uv");
+    if (sa.sa_handler != SIG_DFL) {
+      /* the anchored mechanism: libuv's handler runs with every signal blocked (it takes a lock that a
+       * nested handler on the same thread would wait for forever) and with SA_RESTART.  Deviations only. */
+      int full = 1;
+      for (int g = 1; g < 65; g++)
+        if (g != SIGKILL && g != SIGSTOP && g != 32 && g != 33 && sigismember(&sa.sa_mask, g) != 1) full = 0;
+      if (!full) printf("!nomask");
+      if (!(sa.sa_flags & SA_RESTART)) printf("!norestart");
+    }
   }
   printf("\nobs handles");
   for (int i = 0; i < nh; i++) {
